@@ -136,6 +136,9 @@ harnesses! {
     s4_end_d2_21_n4, unwind = 6, raw = 17, |r| check_step::<4, 4, 2, 2>(r, &rgs(ST_MARKUP, b'/', CV_END | CV_ILL, 2, 2, 1), C04);
     s4_end_d2_12_n4, unwind = 6, raw = 17, |r| check_step::<4, 4, 2, 2>(r, &rgs(ST_MARKUP, b'/', CV_END | CV_ILL, 2, 1, 2), C04);
     s4_end_d1_2_n4,  unwind = 6, raw = 17, |r| check_step::<4, 4, 2, 2>(r, &rgs(ST_MARKUP, b'/', CV_END | CV_ILL, 1, 2, 0), C04);
+    s4_end_d2_22_n4, unwind = 6, raw = 17, |r| check_step::<4, 4, 2, 2>(r, &rgs(ST_MARKUP, b'/', CV_END | CV_ILL, 2, 2, 2), C04);
+    s4_end_d1_1_n4,  unwind = 6, raw = 17, |r| check_step::<4, 4, 2, 2>(r, &rgs(ST_MARKUP, b'/', CV_END | CV_ILL, 1, 1, 0), C04);
+    s4_tag_d2_22_n3, unwind = 5, raw = 16, |r| check_step::<3, 3, 2, 2>(r, &rgs(ST_MARKUP, 1, CV_START, 2, 2, 2), C04);
     s4_end_d0_n4,    unwind = 6, raw = 17, |r| check_step::<4, 4, 2, 2>(r, &rgs(ST_MARKUP, b'/', CV_END | CV_ILL, 0, 0, 0), C04);
     s4_tag_d2_12_n3, unwind = 5, raw = 16, |r| check_step::<3, 3, 2, 2>(r, &rgs(ST_MARKUP, 1, CV_START, 2, 1, 2), C04);
     s4_tag_d1_1_n3,  unwind = 5, raw = 16, |r| check_step::<3, 3, 2, 2>(r, &rgs(ST_MARKUP, 1, CV_START, 1, 1, 0), C04);
